@@ -548,11 +548,13 @@ int eng_conn(FILE *in, FILE *out)
         } else if (!g_conn || g_released) {
             fprintf(out, "= bad-op\n");
             continue;
-        } else if (n == 1 && !strcmp(tok[0], "connect")) {
+        } else if ((n == 1 || n == 2) && !strcmp(tok[0], "connect")) {
             int rc;
-            if (g_type == 'k')
+            /* `connect <kind>`: another API entry point than the one the object was made for */
+            int kind = n == 2 ? tok[1][0] : g_type;
+            if (kind == 'k')
                 rc = xmpp_connect_component(g_conn, "comp.example", 0, conn_handler, NULL);
-            else if (g_type == 'r')
+            else if (kind == 'r')
                 rc = xmpp_connect_raw(g_conn, NULL, 0, conn_handler, NULL);
             else
                 rc = xmpp_connect_client(g_conn, NULL, 0, conn_handler, NULL);
